@@ -48,6 +48,9 @@ func (ms *mapStruct) ptr(offset int64, l int32) ([]byte, error) {
 	if len < 0 {
 		return nil, fmt.Errorf("invalid length: %d < 0", len)
 	}
+	if offset < 0 || offset+len > ms.fileSize {
+		return nil, fmt.Errorf("invalid range: [%d, %d) is outside of the file (size %d)", offset, offset+len, ms.fileSize)
+	}
 
 	if offset >= ms.pOffset && offset+int64(len) <= ms.pOffset+int64(ms.pLen) {
 		//log.Printf("-> already available")
@@ -64,6 +67,12 @@ func (ms *mapStruct) ptr(offset int64, l int32) ([]byte, error) {
 	}
 	if windowSize < len+alignFudge {
 		windowSize = alignedLength(len + alignFudge)
+		if windowStart+windowSize > ms.fileSize {
+			// Rounding up must not extend the window past the end of the
+			// file: reading there fails with io.EOF, which would be reported
+			// as the file having changed mid-transfer.
+			windowSize = ms.fileSize - windowStart
+		}
 	}
 	if windowSize > ms.pSize {
 		win := make([]byte, windowSize)
